@@ -128,7 +128,7 @@ type runResult struct {
 	bindErrs []string
 	// frameOnly[f]: f belongs to this property's check only through a `P:frame` entry (and is not a callee of a function
 	// that serves the property in full): only its class-R obligations and aliasing guards are judged for the property
-	frameOnly map[string]bool
+	frameOnly map[string]string
 	wall     float64
 	solveSec float64
 }
@@ -216,10 +216,14 @@ func runProperty(repo, prop string, timeoutSec, seed int, smtDir string) (*runRe
 				}
 			}
 		}
-		rr.frameOnly = map[string]bool{}
+		rr.frameOnly = map[string]string{}
 		for _, r := range rr.results {
 			if !full[r.Fn.Key] {
-				rr.frameOnly[r.Fn.Key] = true
+				q := r.Fn.Contr.PropQual[prop]
+				if q == "" {
+					q = "frame" // reached only through functions that are themselves partial members
+				}
+				rr.frameOnly[r.Fn.Key] = q
 			}
 		}
 	}
@@ -512,7 +516,7 @@ func cmdCheck(args []string) int {
 	var samples []any
 	judged := groups[:0:0]
 	for _, g := range groups {
-		if fk, _, _ := strings.Cut(g.name, "#"); rr.frameOnly[fk] && !isFrameObligation(g.name) {
+		if fk, _, _ := strings.Cut(g.name, "#"); rr.frameOnly[fk] != "" && !qualifies(g.name, rr.frameOnly[fk]) {
 			continue // a function that serves this property through its frame only: its other clauses belong elsewhere
 		}
 		judged = append(judged, g)
@@ -593,7 +597,7 @@ func cmdCheck(args []string) int {
 	}
 	var missing []string
 	for _, n := range base.Properties[*prop] {
-		if fk, _, _ := strings.Cut(n, "#"); rr.frameOnly[fk] && !isFrameObligation(n) {
+		if fk, _, _ := strings.Cut(n, "#"); rr.frameOnly[fk] != "" && !qualifies(n, rr.frameOnly[fk]) {
 			continue
 		}
 		if !present[n] && isTopLevelClaim(n) {
@@ -946,6 +950,15 @@ var topLevelRe = regexp.MustCompile(`#(F\.ensures\[\d+\]|F\.onpanic\[|F\.yields2
 // isFrameObligation: frame / purity / ordering obligations (class R) and the slice-aliasing guards.
 func isFrameObligation(name string) bool {
 	return strings.Contains(name, "#R.") || strings.Contains(name, "#S.alias-")
+}
+
+// qualifies: the obligation counts for a property the function serves with qualifier q: `frame` = class R and aliasing
+// guards; any other text = obligations whose name contains "#"+q (e.g. `C14:F.cbinv[lit4`).
+func qualifies(name, q string) bool {
+	if q == "frame" {
+		return isFrameObligation(name)
+	}
+	return strings.Contains(name, "#"+q)
 }
 
 func isTopLevelClaim(name string) bool { return topLevelRe.MatchString(name) }
